@@ -82,6 +82,8 @@ def run(ck, w):
         else:
             ck.fail(o, sn.name, "Done is not absorbing", "Done arm does not simply return None")
 
+    band_left_only_when_exhausted(ck, w, "C08.1b", sn, sb, agg_by_arm)
+
     # ---- 2. stop at the first complete version ------------------------------------------------------
     o = ck.ob("C08.2", "AfterBand: Done if band_is_closed was true, an earlier band only if it was false")
     uo = [e for e in sn.events if e.bb in sn.live and e.name == "std::result::Result::<T, E>::unwrap_or" and
@@ -303,6 +305,7 @@ def run(ck, w):
 
     _resume_skip(ck, w)
     _hunk_level_cases(ck, w)
+    _resume_point_kept(ck, w)
 
     # ---- 6. entries are returned unmodified -----------------------------------------------------------------------
     o = ck.ob("C08.6", "Stitch::next returns the buffered entry itself")
@@ -405,6 +408,68 @@ def _resume_skip(ck, w):
         ck.ok(o, "Ok(i) -> i+%d, Err(i) -> i+%d" % (ok_add, err_add), sites=[e.site()])
 
 
+def _resume_point_kept(ck, w):
+    """C08.9: while hunks are being skipped the resume point must survive. `self.after` may be cleared only where a whole
+    hunk is returned because its first entry is already past it; a take()/replace() of it must be undone (Some(..) stored
+    back) on every path that goes on to the next hunk."""
+    lib = w.lib
+    b = w.body("index::IndexHunkIter::try_next") if "index::IndexHunkIter::try_next" in lib.bodies else w.body("index::IndexHunkIter::next")
+    o = ck.ob("C08.9", "IndexHunkIter: the resume point is cleared only when a whole hunk is returned as already past it; it is never lost on a path "
+                       "that continues with the next hunk")
+    nxt = [e for e in b.events if e.bb in b.live and e.callee == "std::iter::Iterator::next"]
+
+    def is_after_place(pl):
+        return any(p.startswith("f:") and p.split(":", 2)[2] == "after" for p in pl["p"])
+    clears, restores = [], set()
+    for bb, j, st in b.all_assigns():
+        if is_after_place(st["pl"]) and st["rv"]["rk"] == "agg" and st["rv"].get("adt") == "std::option::Option":
+            if st["rv"]["variant"] == "None":
+                clears.append((bb, "= None"))
+            else:
+                restores.add(bb)
+        elif is_after_place(st["pl"]) and st["rv"]["rk"] == "use":
+            # moved-in value: a Some(..) built just before, or anything else (treated as a restore only if it is Some)
+            oo = flow.origins(b, st["rv"]["ops"][0])
+            if any(x[0] == "agg" and x[1] == "std::option::Option" for x in oo) and not any(x[0] == "enum" and x[2] == "None" for x in oo):
+                restores.add(bb)
+            elif any(x[0] == "enum" and x[2] == "None" for x in oo):
+                clears.append((bb, "= None"))
+    for e in b.events:
+        if e.bb in b.live and re.search(r"^std::option::Option::<T>::(take|take_if|replace)$|^std::mem::(take|replace|swap)$", e.name) and e.args:
+            oo = flow.origins_x(lib, b, e.args[0])
+            if any(x[0] in ("param", "upvar") and "after" in x[2] for x in oo):
+                clears.append((e.bb, e.name.split("::")[-1] + "()"))
+    # the legitimate clearing edge: first > after decided true
+    whole_edges = set()
+    for e in b.events:
+        if e.bb in b.live and re.search(r"^std::cmp::PartialOrd::(gt|lt)$", e.callee or "") and len(e.args) == 2:
+            kinds = []
+            for a in e.args:
+                oo = flow.origins_x(lib, b, a)
+                calls = flow.origin_calls(oo)
+                kinds.append("after" if any(x[0] in ("param", "upvar", "call") and ("after" in (x[2] if x[0] != "call" else ())) for x in oo)
+                             else "first" if any(c.endswith("<impl [T]>::first") for c in calls) else "?")
+            op = e.callee.rsplit("::", 1)[-1]
+            if (kinds == ["first", "after"] and op == "gt") or (kinds == ["after", "first"] and op == "lt"):
+                whole_edges |= rules.bool_switch_edges(b, e, True)
+    problems = []
+    for bb, how in clears:
+        if whole_edges and b.must_pass_edges(whole_edges, bb):
+            continue
+        # otherwise: no way on to the next hunk without putting it back
+        reach = set()
+        for s_ in b.succ[bb]:
+            reach |= b.reachable(s_, removed_nodes=restores, removed_edges=whole_edges)
+        if any(x.bb in reach for x in nxt):
+            problems.append((bb, how))
+    if problems:
+        ck.fail(o, b.name, "resume point lost while hunks are still being skipped",
+                "self.after %s and the next hunk can be read without it being stored back: later hunks are then returned unfiltered" % problems[0][1],
+                "%s:bb%d" % (b.file, problems[0][0]))
+    else:
+        ck.ok(o, "%d clearing site(s)" % len(clears), instances=len(clears))
+
+
 _FLIP = {"le": "ge", "lt": "gt", "ge": "le", "gt": "lt"}
 _NEG = {"le": "gt", "lt": "ge", "ge": "lt", "gt": "le"}
 
@@ -472,3 +537,77 @@ def _hunk_level_cases(ck, w):
     else:
         ck.ok(o, "%d whole-hunk decision(s), all from the sound end and relation" % n, instances=n,
               sites=[e.site() for e in cmps])
+
+
+def _state_dispatch(w):
+    """(body, switch block, {State variant -> [(bb, aggregate stmt)] built in that arm}) of Stitch::next."""
+    lib = w.lib
+    sn = w.body(SN)
+    adt = lib.adts.get(STATE)
+    vn = [v["name"] for v in adt["variants"]]
+    sw = None
+    for bb in sorted(sn.live):
+        t = sn.blocks[bb]["term"]
+        if t["tk"] != "switch":
+            continue
+        dl = flow.operand_local(t["discr"])
+        for s in reversed(sn.blocks[bb]["stmts"]):
+            if s["sk"] == "assign" and s["pl"]["l"] == dl and s["rv"]["rk"] == "discr":
+                oo = flow.origins_x(lib, sn, {"k": "copy", "pl": s["rv"]["pl"]})
+                if any(x[0] in ("param", "upvar") and x[2] and x[2][-1] == "state" for x in oo):
+                    sw = (bb, {int(a[0]): a[1] for a in t["arms"]}, t["otherwise"])
+                break
+        if sw:
+            break
+    if sw is None:
+        return sn, None, {}
+    sb, arms, other = sw
+    agg_by_arm = {}
+    for vi, name in enumerate(vn):
+        tgt = arms.get(vi)
+        if tgt is None:
+            continue
+        region = sn.reachable(tgt, removed_nodes={sb})
+        for bb, j, s in rules.agg_sites(sn, STATE):
+            if bb in region:
+                agg_by_arm.setdefault(name, []).append((bb, s))
+    return sn, sb, agg_by_arm
+
+
+def band_left_only_when_exhausted(ck, w, rid, sn=None, sb=None, agg_by_arm=None):
+    if sn is None:
+        sn, sb, agg_by_arm = _state_dispatch(w)
+        if sb is None:
+            o = ck.ob(rid, "InBand -> AfterBand only when the hunk iterator returned None")
+            ck.fail(o, SN, "no match on self.state", "state dispatch not found")
+            return
+    # ---- 1b. a band is left only when its hunks are exhausted -------------------------------------------------
+    o = ck.ob(rid, "InBand -> AfterBand only when the hunk iterator returned None: an unreadable hunk (Some(Err)) does not end the band")
+    tn = [e for e in sn.events if e.bb in sn.live and e.callee == rules.POLL and
+          re.search(r"^index::IndexHunkIter::(try_next|next)::", e.resolved or "")]
+    ab = [(bb, s_) for bb, s_ in agg_by_arm.get("InBand", []) if s_["rv"]["variant"] == "AfterBand"]
+    if not tn or not ab:
+        ck.fail(o, sn.name, "anchor-missing", "no hunk read or no InBand->AfterBand transition found (reads=%d, transitions=%d)" % (len(tn), len(ab)))
+    else:
+        some_t = set()
+        none_e = set()
+        for e in tn:
+            carriers = flow.result_carriers(sn, e.dest["l"])
+            for (sb_, tested, arms_, other_) in flow.discriminant_switches(sn, carriers):
+                if sn.locals[tested].startswith("std::option::Option"):
+                    if 1 in arms_:
+                        some_t.add(arms_[1])
+                    none_e.add((sb_, arms_[0] if 0 in arms_ else other_))
+        badt = []
+        for bb, s_ in ab:
+            for t_ in some_t:
+                if bb in sn.reachable(t_, removed_nodes={sb}):
+                    badt.append(bb)
+        if not none_e:
+            ck.fail(o, sn.name, "hunk iterator result not matched", "no test of the Option returned by the hunk iterator")
+        elif badt:
+            ck.fail(o, sn.name, "band abandoned while hunks remain", "State::AfterBand is reachable after the hunk iterator returned Some(..): "
+                    "the remaining hunks of the band are never read", "%s:bb%d" % (sn.file, badt[0]))
+        else:
+            ck.ok(o, "%d transition(s), all on the None edge" % len(ab), instances=len(ab))
+
